@@ -118,10 +118,11 @@ class ByteArray(SimpleModel):
 
     @classmethod
     def from_base64(cls, value):
-        joiner = type(value)()
         try:
+            joiner = type(value)()
             return (b64decode(joiner.join(value)),)
-        except TypeError:
+        except (TypeError, ValueError, AttributeError):
+            # binascii.Error is a ValueError in Python 3
             raise ValidationError(value)
 
     @classmethod
@@ -142,7 +143,8 @@ class ByteArray(SimpleModel):
             else:
                 return (urlsafe_b64decode(value),)
 
-        except TypeError as e:
+        except (TypeError, ValueError) as e:
+            # binascii.Error is a ValueError in Python 3
             logger.exception(e)
 
             if len(value) < 100:
@@ -156,7 +158,10 @@ class ByteArray(SimpleModel):
 
     @classmethod
     def from_hex(cls, value):
-        return (unhexlify(_bytes_join(value)),)
+        try:
+            return (unhexlify(_bytes_join(value)),)
+        except (TypeError, ValueError):
+            raise ValidationError(value)
 
 
 def _default_binary_encoding(b):
